@@ -161,6 +161,7 @@ def gen_spec(rng, quals):
 
 
 def run_seq(case):
+    I.set_salt([case["spec"], case["oseed"]])
     try:
         obj = build_obj(case["spec"], case["oseed"])
         twin = build_obj(case["spec"], case["oseed"])
